@@ -157,7 +157,10 @@ dispatch_walltime(const struct timespec *inval, int64_t delta)
 	nsec += delta;
 	if (nsec <= 1) {
 		// -1 is special == DISPATCH_TIME_FOREVER == forever
-		return delta >= 0 ? DISPATCH_TIME_FOREVER : (dispatch_time_t)-2ll;
+		// a non-negative delta only overflows to a negative sum; 0 and 1 are
+		// plain (elapsed) times next to the epoch
+		return (delta >= 0 && nsec < 0) ? DISPATCH_TIME_FOREVER :
+				(dispatch_time_t)-2ll;
 	}
 	return _dispatch_clock_and_value_to_time(DISPATCH_CLOCK_WALL, (uint64_t)nsec);
 }
